@@ -68,6 +68,26 @@ def acase(c):
         lst = lambda xs: "[" + "; ".join(xs) + "]"  # noqa: E731
         return (f"CReparam {'true' if c['uniform'] else 'false'} {lst(mus)} {lst(sgs)} {lst([qc(e) for e in c['eps']])} "
                 f"{lst([qc(w) for w in c['ws']])} {qq(c['p'])} {qq(c['t'])}")
+    if c["kind"] == "catenum":
+        th = c["theta"]
+
+        def dual(x, y):
+            return f"(({qc(x)} + {qc(y)} * {qc(th)})%Qc, {qc(y)})"
+        lst = lambda xs: "[" + "; ".join(xs) + "]"  # noqa: E731
+        ws = lst([dual(x, y) for x, y in zip(c["a"], c["b"])])
+        vs = lst([dual(x, y) for x, y in zip(c["c"], c["d"])])
+        fl = "None"
+        if c["with_flip"]:
+            # flip adds fw * (1 + theta) with probability pa + pb * theta
+            fl = f"(Some ({dual(c['pa'], c['pb'])}, {dual(c['fw'], c['fw'])}))"
+        return f"CCatEnum {ws} {vs} {fl} {qq(c['p'])} {qq(c['t'])} {qq(c['est'])} {qq(c['grad'])}"
+    if c["kind"] == "mvdvec":
+        th = c["theta"]
+        bl = lambda bs: "[" + "; ".join("true" if x else "false" for x in bs) + "]"  # noqa: E731
+        ps = "[" + "; ".join(f"(({qc(a)} + {qc(b_)} * {qc(th)} * {qc(0.25)})%Qc, ({qc(b_)} * {qc(0.25)})%Qc)" for a, b_ in zip(c["pa"], c["pb"])) + "]"
+        table = "[" + "; ".join(f"({bl(b_)}, ({qc(v[0])}, {qc(v[1])}))" for b_, v in c["table"]) + "]"
+        runs = "[" + "; ".join(f"({bl(r['bits'])}, {qq(r['p'])}, {qq(r['t'])})" for r in c["runs"]) + "]"
+        return f"CMvdVec {ps} {table} {runs}"
     if c["kind"] == "consistency":
         return f"CFlagA {'true' if c['ok'] else 'false'}"
     if c["kind"] == "canon":
@@ -142,6 +162,8 @@ def run(ctx):
                 "sites": Counter(len(c["prog"]["sites"]) for c in cases if c["kind"] == "adev"),
                 "reparam": Counter(("uniform" if c["uniform"] else "normal") + f":L{c['L']}:mu{int(c['mu_vec'])}sg{int(c['sg_vec'])}" for c in cases if c["kind"] == "reparam"),
                 "consistency": Counter(c["prim"] for c in cases if c["kind"] == "consistency"),
+                "catenum": sum(1 for c in cases if c["kind"] == "catenum"), "mvdvec": sum(1 for c in cases if c["kind"] == "mvdvec"),
+                "reparam_variants": Counter(c.get("variant", "site") for c in cases if c["kind"] == "reparam"),
                 "mv_reparam": sum(1 for c in cases if c["kind"] == "mv_reparam"),
                 "consistency_min_pvalues": sorted(c["pvalue"] for c in cases if c["kind"] == "consistency" and "pvalue" in c)[:4],
                 "errors": Counter(c.get("err", "")[:70] for c in cases if "err" in c)}
@@ -150,6 +172,7 @@ def run(ctx):
                 "sampled sites is scripted; per-outcome (primal, tangent) compared with the model's estimator, their probability-weighted mean with the exact "
                 "dual expectation; enumeration-only programs also under jit(seed(.)), grad_estimate and estimate; plus normal_reparam / uniform_reparam sites with scalar or "
                 "batched location and scale, scripted noise, followed by a lane-coupling continuation: primal and tangent compared with the pathwise dual; "
+                "plus batched flip_mvd (2-3 lanes, every outcome vector scripted; lane-wise measure-valued estimator and its exact mean); plus categorical_enum_parallel (rational masses in theta, optionally followed by flip_enum; jvp_estimate, estimate, grad_estimate exact); normal_reparam with a sample_shape; multivariate_normal_diag_reparam; "
                 "plus multivariate_normal_reparam through the built-in full-covariance / mean-field families with scripted noise (x = mean + chol @ eps, value and directional derivative in exact rationals); "
                 "plus sampler/scorer consistency of every sampled primitive under seed (3000 vectorised draws, goodness of fit against the density the primitive is "
                 "scored with; fails below p = 1e-6); non-trivial = distinct flip program with >=2 sites or batched reparameterised site")
